@@ -6,7 +6,8 @@ program, as functions from a plan typed by `Prog.infer` and candidate values:
 `routeU` (`ConstructNode::finalize_unpruned`), `forestRoute` (`Forest::to_witness_node` + the same),
 `decodeRoute` (`RedeemNode::decode`'s witness stream), `routeP` (`finalize_pruned`: `routeU`, then
 re-inference of the pruned program and `Value::prune` of the remaining values, for an arbitrary set
-`Cut` of removed branches).  `r : Witnesses` is what the resulting redemption program carries
+`Cut` of removed branches), `finalizePruned` (`RoutesExec.lean`: `routeP` for the cut the model's own
+run of the unpruned program determines).  `r : Witnesses` is what the resulting redemption program carries
 (node index, value); the invariant is `WitnessTyped ar r`: every value `HasTy` the inferred target
 type of its node.  `Covers idx r`: exactly one value per witness node.
 -/
@@ -144,10 +145,11 @@ Full statement: *`finalize_pruned(env)` = `finalize_unpruned`, execution on the 
 tracker, removal of the case branches the tracker did not see, re-inference, `Value::prune` of the
 witness values — returns a program satisfying the invariant or an error, and never panics.*
 Proved below for **every** set of removed branches and nodes (`Cut`), hence for the one an execution
-determines, and for both inference passes of `prune_with_tracker` (`leak`, see `Routes.lean`).  Not modelled (so `_partial`): the execution itself — that the Bit Machine does not
-panic on the unpruned program is C05's theorem under the hypothesis `WT`, which is exactly the
-invariant `finalize_unpruned_ok_or_error` establishes, but the link plan → `BM4.Term` (`elabNode`)
-is driver glue, not a theorem; which branches are removed is taken from the real run. -/
+determines, and for both inference passes of `prune_with_tracker` (`leak`, see `Routes.lean`).  These
+parametric theorems stay `_partial` (the cut is a parameter); the section "route 2 with the run
+modelled" below instantiates the cut with the model's own run (`Routes.finalizePruned`) and covers
+the Bit Machine run: `finalize_pruned_ok_or_error`, `finalize_pruned_never_panics`,
+`finalize_pruned_values`. -/
 
 /-- pruned types are below the original ones (fewer constraints ⇒ smaller least solution) -/
 theorem pruned_types_smaller (jt : JetTypes) (leak : Bool) (p : Plan) (program : Bool) (c : Cut)
@@ -523,12 +525,11 @@ theorem finalize_pruned_serialisation_counterexample :
 
 Full statement: *executing a redemption program obtained by any route writes, at every witness
 node, exactly as many bits as the node's target type is wide (and `BitMachine::exec` computes the
-semantics).*  Proved: the padded encoding of every carried value — what the `witness` instruction
-copies into the write frame — is exactly as long as the bit width of the node's target type.
-Missing for the full statement: the tie between a plan with these values and the intrinsically
-typed term of C05's `exec_equals_semantics` (hypothesis `WT`), which is checked by the
-correspondence of C05 and by this property's harness (`BitMachine::exec` under debug assertions),
-not proved. -/
+semantics).*  `witness_write_width_partial` is the value-level fact (the padded encoding of every
+carried value is exactly as long as the bit width of the node's target type); `witness_write_width`
+is the statement on the Bit Machine model; `finalize_unpruned_executes` is "`exec` computes the
+semantics" for the program `finalize_unpruned` returns (the tie plan + values → typed term,
+`Routes.elab_total`, is a theorem now).  For the *pruned* program, "same behaviour" is C08's subject. -/
 theorem witness_write_width_partial (ar : Arrows) (r : Witnesses) (h : WitnessTyped ar r) :
     ∀ iv ∈ r, (padded (tgtOf ar iv.1) iv.2).length = (tgtOf ar iv.1).bw :=
   fun iv hm => padded_length (h iv hm)
